@@ -1,24 +1,34 @@
 """C17: pathways are real, bottleneck-optimal and never over-explain the flux (enspara/tpt/path.py)."""
-import itertools
+import itertools, os, sys
 from fractions import Fraction as F
 import numpy as np
-from core import cn, cq, clist, copt
+from core import cn, cq, clist, copt, VERIF
+sys.path.insert(0, os.path.join(VERIF, "translator"))
+import tr_path
 
 PID = "C17"
 PROPS_FILE = "Props/C17.v"
-MODEL_TARGETS = ["Model/Paths.vo"]
-CASE_HEADER = ("From Coq Require Import List Arith QArith.\nFrom EV Require Import Paths.\n"
+MODEL_TARGETS = ["Model/Paths.vo", "Base/PathBase.vo", "Gen/PathGen.vo"]
+GEN_FILES = ["Gen/PathGen.v"]
+CASE_HEADER = ("From Coq Require Import List Arith QArith.\nFrom EV Require Import Paths PathBase PathGen.\n"
                "Import ListNotations.\nClose Scope Q_scope.\n")
 RULE = ("(1) acyclic conserved flows: superpositions of 1..6 weighted source->sink paths on a random DAG (n=3..8, weights "
         "small integers / halves, so float arithmetic is exact); (2) arbitrary weighted digraphs n=3..8 with cycles, "
         "self loops and many equal weights; (3) float net fluxes of random reversible chains computed by the real "
         "enspara.tpt.net_fluxes (exact dyadic values handed to the model); (4) malformed: empty sinks/sources, indices "
-        ">= n. All with random source/sink sets (occasionally overlapping / duplicated), both removal schemes, "
-        "num_paths in {1,2,3,inf}, flux_cutoff in {0.5,0.9,1-1e-10}. Each case runs the real top_path and paths; the "
-        "model is compared exactly (paths, fluxes, exception kind); the oracle enumerates all simple source->sink paths "
+        ">= n; (5) larger acyclic conserved flows (n=6..10, up to 10 superposed paths, num_paths=inf, subtract scheme, "
+        "cut-offs 0.5 / 0.9 / 1-1e-10 / exactly 1.0), also scaled by 2^-30. All with random source/sink sets (occasionally overlapping / duplicated), both removal schemes, "
+        "num_paths in {1,2,3,inf}, flux_cutoff in {0.5,0.9,1-1e-10} (stream 5 also 1.0). On conserved subtract cases with "
+        "num_paths=inf the executable hypotheses of c17_conserved_reaches_fraction (conservedb, forwardb with a topological "
+        "order, nodupb of the sources) are evaluated in Coq too. Each case runs the real top_path and paths; the "
+        "hand model AND the model regenerated from path.py (gen_top_path / gen_paths) are compared exactly (paths, "
+        "fluxes, exception kind); the oracle enumerates all simple source->sink paths "
         "of every residual matrix. non-trivial := a finite top flux on a graph where at least two distinct simple "
         "source->sink paths exist")
-TRUSTED = ["modelled not verified: NumPy argmax/argmin (first extremum), np.where, boolean/fancy indexing, in-place fancy "
+TRUSTED = ["translator/tr_path.py: statement shapes of top_path / _remove_bottleneck / _subtract_path_flux / paths recognised "
+           "fail-closed, scalar logic translated into Gen/PathGen.v and proved equal to the hand model "
+           "(c17_generated_*); the loop / fancy-indexing skeleton Base/PathBase.v is tied by correspondence only",
+           "modelled not verified: NumPy argmax/argmin (first extremum), np.where, boolean/fancy indexing, in-place fancy "
            "subtraction, copy.copy of an ndarray",
            "float policy: integer/half-integer weights make the subtract scheme exact in binary floating point; for "
            "float-valued matrices only comparison-based results (top_path, bottleneck scheme, first subtract path) are "
@@ -26,11 +36,13 @@ TRUSTED = ["modelled not verified: NumPy argmax/argmin (first extremum), np.wher
 ASSUMPTIONS = ["net-flux entries are non-negative; state indices are 0 <= i < n; num_paths >= 1",
                "sum <= outflow is a theorem for the subtract scheme only; for the bottleneck scheme it is refuted in Coq "
                "and on the real code (known findings bottleneck-sum-le-outflow-nonconserved / -conserved)",
-               "reaching the requested fraction on conserved flows is checked by the oracle only (no Coq theorem)",
+               "reaching the requested fraction (c17_conserved_reaches_fraction): subtract scheme, num_paths=inf, cutoff <= 1, "
+               "acyclic conserved non-negative flow, sources listed once and disjoint from the sinks, exact arithmetic; the "
+               "oracle checks the same clause on the doubles with tolerance 1e-9 * total",
                "input-unchanged is checked on the real arrays only (the Gallina model is pure)"]
 SHARD = 60
 EXHAUSTIVE = {"thorough": True}
-CUTOFFS = [0.5, 0.9, 1 - 1e-10]
+CUTOFFS = [0.5, 0.9, 1 - 1e-10, 1.0]
 F2_KEY = "bottleneck-sum-le-outflow-nonconserved"
 F2C_KEY = "bottleneck-sum-le-outflow-conserved"      # same root cause, seen on conserved flows with >= 2 sources
 
@@ -96,6 +108,28 @@ def _conserved(rng):
         w = _weight(rng)
         for a, b in zip(p, p[1:]):
             M[a][b] += w
+    return n, M, src, snk
+
+
+def _conserved_big(rng):
+    """larger acyclic conserved flow: up to 10 superposed source->sink paths on a random order of 6..10 states."""
+    n = rng.randint(6, 10)
+    order = list(range(n))
+    rng.shuffle(order)
+    ks, kt = rng.choice([1, 1, 2, 3]), rng.choice([1, 1, 2, 3])
+    src, snk = order[:ks], order[n - kt:]
+    pos = {v: i for i, v in enumerate(order)}
+    mids = order[ks:n - kt]
+    M = [[F(0)] * n for _ in range(n)]
+    for _ in range(rng.randint(2, 10)):
+        s, t = rng.choice(src), rng.choice(snk)
+        inner = sorted(rng.sample(mids, rng.randint(0, min(len(mids), 5))), key=lambda v: pos[v])
+        p = [s] + inner + [t]
+        w = _weight(rng)
+        for a, b in zip(p, p[1:]):
+            M[a][b] += w
+    rng.shuffle(src)
+    rng.shuffle(snk)
     return n, M, src, snk
 
 
@@ -178,6 +212,13 @@ def generate(rng, tier):
             else:
                 src = [n] + src
             cases.append(_mk("malformed", n, M, src, snk, sch, npaths, cut))
+    # round 2: larger conserved flows, subtract scheme, no path limit: the "reaches the requested fraction" clause
+    for i in range(60 if tier == "quick" else 500):
+        n, M, src, snk = _conserved_big(rng)
+        sc = F(1, 2 ** 30) if rng.random() < 0.25 else F(1)
+        M = [[x * sc for x in row] for row in M]
+        sch = "subtract" if rng.random() < 0.8 else "bottleneck"
+        cases.append(_mk("conserved", n, M, src, snk, sch, None, rng.choice([0, 1, 2, 3, 3])))
     if tier == "thorough":
         # exhaustive small scope: every digraph on 3 nodes with weights {0,1,2} on the 6 off-diagonal edges
         pos = [(i, j) for i in range(3) for j in range(3) if i != j]
@@ -331,6 +372,12 @@ def _remove(M, p, scheme):
     return M
 
 
+def _fraction_clause(c, conserved, total):
+    """is the clause 'reaches the requested fraction when the flux is conserved' applicable?"""
+    return (c["kind"] in ("conserved", "float") and conserved and c["num_paths"] is None and total > 0
+            and len(set(c["src"])) == len(c["src"]))
+
+
 def oracle(c, r):
     out = []
     n, src, snk = c["n"], c["src"], c["snk"]
@@ -391,8 +438,7 @@ def oracle(c, r):
             c["scheme"], sum(fls), outflow)))
     if c["num_paths"] is not None and len(fls) > c["num_paths"]:
         out.append(("num-paths", "%d paths returned, %d requested" % (len(fls), c["num_paths"])))
-    if c["kind"] in ("conserved", "float") and conserved and c["num_paths"] is None and total > 0 \
-            and len(set(src)) == len(src):
+    if _fraction_clause(c, conserved, total):
         want = F(CUTOFFS[c["cutoff"]]) * total
         if sum(fls) < want - F(1, 10 ** 9) * total:
             out.append(("conserved-reaches-fraction", "scheme=%s: explained %s of %s, requested fraction %s" % (
@@ -430,9 +476,16 @@ def _ambiguous(c, r):
         return True
     cut = F(CUTOFFS[c["cutoff"]])
     acc = F(0)
-    for x in ps["fluxes"]:
+    # subtract scheme on a conserved flow: once everything is explained nothing is left in the residual
+    # matrix (c17_subtract_keeps_conserved), so on which side of the cut-off the last float sum falls
+    # does not change the result
+    harmless_end = (c["kind"] == "conserved" and c["scheme"] == "subtract" and len(set(c["src"])) == len(c["src"])
+                    and not (set(c["src"]) & set(c["snk"])) and _is_conserved(_FM(c), c["n"], c["src"], c["snk"]))
+    for k, x in enumerate(ps["fluxes"]):
         acc += F(x) / total
         if abs(acc - cut) < F(1, 10 ** 12):
+            if harmless_end and acc == 1 and k == len(ps["fluxes"]) - 1:
+                continue
             return True
     return False
 
@@ -445,34 +498,75 @@ def _compare_paths(c, r):
     return True
 
 
-def _top_term(c):
-    return "top_path %s %s %s %s" % (cn(c["n"]), _cmat(c), _cnl(c["src"]), _cnl(c["snk"]))
+def _top_term(c, gen=False):
+    return "%s %s %s %s %s" % ("gen_top_path" if gen else "top_path", cn(c["n"]), _cmat(c), _cnl(c["src"]),
+                               _cnl(c["snk"]))
 
 
-def _paths_term(c):
-    rem = "subtract_path" if c["scheme"] == "subtract" else "remove_bottleneck"
-    return "paths %s %s %s %s %s %s %s" % (rem, cn(c["n"]), _cmat(c), _cnl(c["src"]), _cnl(c["snk"]),
-                                          copt(c["num_paths"], cn, "nat"), cq(F(CUTOFFS[c["cutoff"]])))
+def _paths_term(c, gen=False):
+    if gen:      # the functions regenerated from path.py by translator/tr_path.py
+        fn, rem = "gen_paths", ("gen_scheme_subtract" if c["scheme"] == "subtract" else "gen_scheme_bottleneck")
+    else:
+        fn, rem = "paths", ("subtract_path" if c["scheme"] == "subtract" else "remove_bottleneck")
+    return "%s %s %s %s %s %s %s %s" % (fn, rem, cn(c["n"]), _cmat(c), _cnl(c["src"]), _cnl(c["snk"]),
+                                       copt(c["num_paths"], cn, "nat"), cq(F(CUTOFFS[c["cutoff"]])))
 
 
-def coq_check(c, r):
+def _check_one(c, r, gen):
     t = r["top"]
     if "err" in t:
         code = ERR.get(t["err"], 9)
-        top = "top_eqb (%s) %s [] NInf" % (_top_term(c), cn(code))
+        top = "top_eqb (%s) %s [] NInf" % (_top_term(c, gen), cn(code))
     else:
         if t["flux"] == "nan":
             return None
-        top = "top_eqb (%s) 0 %s %s" % (_top_term(c), _cnl(t["path"]), _cext(t["flux"]))
+        top = "top_eqb (%s) 0 %s %s" % (_top_term(c, gen), _cnl(t["path"]), _cext(t["flux"]))
     if not _compare_paths(c, r):
         return top
     ps = r["paths"]
     if "err" in ps:
-        pt = "paths_eqb (%s) %s [] []" % (_paths_term(c), cn(ERR.get(ps["err"], 9)))
+        pt = "paths_eqb (%s) %s [] []" % (_paths_term(c, gen), cn(ERR.get(ps["err"], 9)))
     else:
-        pt = "paths_eqb (%s) 0 %s %s" % (_paths_term(c), clist(ps["paths"], _cnl, "(list nat)"),
+        pt = "paths_eqb (%s) 0 %s %s" % (_paths_term(c, gen), clist(ps["paths"], _cnl, "(list nat)"),
                                          clist(ps["fluxes"], lambda x: cq(F(x)), "Q"))
     return "(%s) && (%s)" % (top, pt)
+
+
+def _topo(M, n):
+    """a topological order of the positive edges (Kahn), None if there is a cycle"""
+    left, order = set(range(n)), []
+    while left:
+        free = sorted(v for v in left if not any(M[u][v] > 0 for u in left))
+        if not free:
+            return None
+        order += free
+        left -= set(free)
+    return order
+
+
+def _theorem_hyps(c):
+    """Coq term: the executable hypotheses of c17_conserved_reaches_fraction hold for this case
+    (conservedb / forwardb imply conserved / acyclic by c17_conserved_tests_sound), or None if the
+    case is outside the theorem's domain"""
+    if c["kind"] != "conserved" or c["scheme"] != "subtract" or c["num_paths"] is not None:
+        return None
+    M = _FM(c)
+    if len(set(c["src"])) != len(c["src"]) or set(c["src"]) & set(c["snk"]) or not _is_conserved(M, c["n"], c["src"], c["snk"]):
+        return None
+    order = _topo(M, c["n"])
+    return "conservedb %s %s %s %s && forwardb %s %s %s && nodupb %s" % (
+        cn(c["n"]), _cmat(c), _cnl(c["src"]), _cnl(c["snk"]), cn(c["n"]), _cmat(c), _cnl(order), _cnl(c["src"]))
+
+
+def coq_check(c, r):
+    """the hand model and the model regenerated from the source must both reproduce the implementation;
+    on conserved subtract cases the hypotheses of the fraction theorem are evaluated as well"""
+    a = _check_one(c, r, False)
+    if a is None:
+        return None
+    t = "(%s) && (%s)" % (a, _check_one(c, r, True))
+    h = _theorem_hyps(c)
+    return t if h is None else "(%s) && (%s)" % (t, h)
 
 
 def coq_show(c):
@@ -515,12 +609,24 @@ def tags(c, r):
             t.append("float-subtract-not-compared")
         if c["num_paths"] is not None and k == c["num_paths"]:
             t.append("stopped-by-num_paths")
+        if c["kind"] == "conserved":
+            M = _FM(c)
+            total = sum(sum(M[s]) for s in c["src"])
+            if _fraction_clause(c, _is_conserved(M, c["n"], c["src"], c["snk"]), total):
+                t.append("fraction-clause-checked")
+                if c["scheme"] == "subtract":
+                    t.append("fraction-theorem-hypotheses-met")
     return t
 
 
 ESSENTIAL_TAGS = ["conserved", "digraph", "float", "malformed", "scheme-subtract", "scheme-bottleneck", "top-finite",
                   "no-path", "multi-sink", "multi-source", "top-IndexError", "top-ValueError", "npaths-returned-4+",
-                  "stopped-by-num_paths", "equal-fluxes"]
+                  "stopped-by-num_paths", "equal-fluxes", "fraction-clause-checked",
+                  "fraction-theorem-hypotheses-met", "cutoff-3"]
+
+
+def translate(repo):
+    return tr_path.translate(repo)
 
 
 def search(rng, tier):
